@@ -14,8 +14,8 @@ BINARY = ["add", "sub", "mul", "divs", "maxs"]
 ALIAS = ["reshape_rt", "transpose_rt", "getall", "ravel_rt", "ident_add0", "expand_squeeze", "swap_rt"]
 SPARSE = ["gather", "rev", "slice_pad", "take1"]
 REDUCE = ["sum_b", "mean_b", "cumsum", "dot_b"]
-CONTROL = ["if_pos", "while_half", "rec_pow", "closure_scale", "if_truthy", "while_truthy"]
-USER = ["log_scale", "log_mul"]
+CONTROL = ["if_pos", "while_half", "rec_pow", "closure_scale", "if_truthy", "while_truthy", "nested_indep"]
+USER = ["log_scale", "log_mul", "log_tri"]
 
 
 def gen_program(rng, n_ops=12, shape=(3,), p_dead=0.15, p_multi=0.2, families=("unary", "binary", "alias", "sparse", "reduce", "control", "user"), fan=3, n_out=1):
@@ -39,7 +39,11 @@ def gen_program(rng, n_ops=12, shape=(3,), p_dead=0.15, p_multi=0.2, families=("
 
         a = pick()
         p = {}
-        if name in BINARY or name in ("dot_b", "log_mul"):
+        if name == "log_tri":
+            b = a if rng.uniform() < p_multi else pick()
+            c = b if rng.uniform() < p_multi else pick()
+            ins = [a, b, c]
+        elif name in BINARY or name in ("dot_b", "log_mul"):
             b = a if rng.uniform() < p_multi else pick()
             ins = [a, b]
         else:
@@ -198,6 +202,19 @@ def interpret_values(prog, x, xp, user=None, on_op=None, blog=None):
             c = p["c"]
             f = lambda v: (lambda u: u * c + v)(xp.sin(v))
             r = f(a)
+        elif name == "nested_indep":
+            # an inner differentiation whose function returns a value traced only by the enclosing level
+            # (it does not depend on the inner variable): the inner derivative is exactly 0
+            if xp is onp:
+                r = a + 0.0 * xp.sum(a)
+            else:
+                from autograd import grad as _grad
+
+                s_outer = xp.sum(a * a)
+                inner = _grad(lambda y: s_outer if y > 1.0 else y * s_outer)(2.0)
+                r = a + inner
+        elif name == "log_tri":
+            r = user["log_tri"](a, b, vals[ins[2]], k)
         elif name == "log_scale":
             r = user["log_scale"](a, p["c"], k)
         elif name == "log_mul":
@@ -206,6 +223,21 @@ def interpret_values(prog, x, xp, user=None, on_op=None, blog=None):
             raise ValueError(name)
         vals.append(r)
     return vals
+
+
+def well_scaled(prog, x, user, bound=1e6):
+    """Decided on NumPy only: every intermediate value of the program is finite and moderate, so that
+    float64 overflow (inf * 0 in a backward pass) cannot masquerade as a derivative error."""
+    try:
+        with onp.errstate(all="ignore"):
+            vals = interpret_values(prog, x, onp, user)
+    except Exception:
+        return False
+    for v in vals:
+        a = onp.asarray(v, dtype=float)
+        if not onp.all(onp.isfinite(a)) or (a.size and float(onp.max(onp.abs(a))) > bound):
+            return False
+    return True
 
 
 def enc_program(prog):
